@@ -19,6 +19,10 @@ Ign == [k |-> "ignore"]
 BaseEnv == Env1W
 Shapes == <<
   BaseEnv,
+  \* an unknown two levels down, below a set
+  [BaseEnv EXCEPT !.c = VRec([k |-> VInt(1), ss |-> [k |-> "set", els |-> <<VRec([n |-> Unk("x")])>>]])],
+  \* a boolean unknown nested in the context
+  [BaseEnv EXCEPT !.c = VRec([k |-> Unk("x"), s |-> VStr(<<97>>), ss |-> [k |-> "set", els |-> <<Unk("y")>>]])],
   [BaseEnv EXCEPT !.p = Unk("x")],
   [BaseEnv EXCEPT !.a = Unk("x")],
   [BaseEnv EXCEPT !.r = Unk("x")],
